@@ -63,6 +63,8 @@ def tasks(tier):
     # attempt_timeout_s: an attempt that hangs past the timeout, then further attempts
     cfgs.append(dict(base, M=3, attempt_timeout=2, durs=[0, 5, 1], max_unknown=None, deadline=None))
     cfgs.append(dict(base, M=3, budget={"max": 1, "window": 8}, deadline=3))
+    # async entry points are handed callbacks that return awaitable objects (not coroutines)
+    cfgs.append(dict(base, M=3, max_unknown=None, async_awaitables=True))
     for cfg in cfgs:
         # family 1: callbacks at policy level, decorator included
         cfg.setdefault("strat", {"default": "ctx", "per": {}})
@@ -71,6 +73,7 @@ def tasks(tier):
         c2 = dict(cfg, handler="call", before_sleep="call", sleeper="call")
         # family 3: no handler, library default sleeper, breaker attached (Policy entries only)
         c3 = dict(cfg, handler="call" if cfg["M"] == 2 else None, sleeper=None,
+                  alphabet=ALPHA + (["kbd", "cancel"] if cfg["M"] == 2 else []),
                   breaker={"threshold": 1, "window": 8, "recovery": 2, "trip_on": ["T", "U", "P"]})
         c4 = dict(cfg, handler="both", before_sleep="both", sleeper="both")
         for first in ALPHA:
@@ -155,6 +158,8 @@ def run_diff(cfg, entry, ch, variants):
             full2 = full
             if full["attempt_timeout"] is not None and (e.startswith("Async") or e == "adeco"):
                 full2 = dict(full, loop=True, sleeper_async=True)
+            if full["async_awaitables"] and (e.startswith("Async") or e == "adeco"):
+                full2 = dict(full2, sleeper_async=True, bs_async=True, awaitable="object")
             w2 = seq.World(full2, ch2)
             w2.call(e)
             if ch2.pos != len(ch2.prefix):
